@@ -71,6 +71,25 @@ def run_vector(vec):
             lm = flodym.FixedLifetime(dims=U.dimset(ds), time_letter="t", mean=p)
             if tuple(np.shape(lm.mean)) != tuple(len(U.labels(l)) for l in ds):
                 problems.append(f"{{C13}} lifetime parameter stored with shape {np.shape(lm.mean)}")
+        elif op == "assign_foreign":
+            from .universe import Dimension, DimensionSet
+            l = cfg["tl"]
+            foreign = Dimension(name="other_" + l, letter=l, items=[f"o{i}" for i in range(len(U.labels(l)) + 1)])
+            x = FlodymArray(dims=U.dimset(ds), values=np.full(tuple(len(U.labels(m)) for m in ds), 9.0))
+            ydims = DimensionSet(dim_list=[foreign if m == l else U.dim(m) for m in ds])
+            y = FlodymArray(dims=ydims, values=np.ones(tuple(d.len for d in ydims)))
+            sx = snapshot(x)
+            made.append(("target", x))
+            try:
+                if via == "ellipsis":
+                    x[...] = y
+                elif via == "empty_dict":
+                    x[{}] = y
+                else:
+                    made.append(("sum of arrays with clashing dimensions", x + y))
+            except Exception as e:
+                raised = e
+            problems += unchanged(x, sx, "{C13} target of an assignment from an array with a foreign same-letter dimension")
         else:
             return [f"MACHINERY: unknown op {op}"]
     except Exception as e:
